@@ -815,6 +815,19 @@ namespace
                         O["const"] = std::move(c);
                     O["val"] = refOf(R->getRetValue());
                     O["refs"] = refsOf(R->getRetValue());
+                    // `return c ? A : B;` with constant arms: the constants, in the order (c true, c false)
+                    if (auto* CO = dyn_cast<ConditionalOperator>(strip(R->getRetValue())))
+                    {
+                        auto ct = constOf(CO->getTrueExpr());
+                        auto cf = constOf(CO->getFalseExpr());
+                        if (!(ct.kind() == json::Value::Null) && !(cf.kind() == json::Value::Null))
+                        {
+                            json::Array A;
+                            A.push_back(std::move(ct));
+                            A.push_back(std::move(cf));
+                            O["arms"] = std::move(A);
+                        }
+                    }
                 }
                 out.push_back(std::move(O));
                 return true;
